@@ -128,6 +128,31 @@ func verifSeedBytes(i int) []byte {
 	if err != nil {
 		panic(err)
 	}
+	if verifrt.Param("version") == 1 {
+		// the same program as format version 1 (narrow jump operands)
+		v1 := &ugo.Bytecode{FileSet: bc.FileSet, NumModules: bc.NumModules}
+		var ok bool
+		if v1.Main, ok = verifDownConvert(bc.Main); !ok {
+			panic("seed not convertible to v1")
+		}
+		for _, c := range bc.Constants {
+			if cf, isCF := c.(*ugo.CompiledFunction); isCF {
+				d, ok := verifDownConvert(cf)
+				if !ok {
+					panic("seed not convertible to v1")
+				}
+				v1.Constants = append(v1.Constants, d)
+			} else {
+				v1.Constants = append(v1.Constants, c)
+			}
+		}
+		data, err := (*Bytecode)(v1).MarshalBinary()
+		if err != nil {
+			panic(err)
+		}
+		data[4], data[5] = 0, 1
+		return data
+	}
 	data, err := (*Bytecode)(bc).MarshalBinary()
 	if err != nil {
 		panic(err)
